@@ -7,3 +7,29 @@ void _ZN13QXmppLoggable10logMessageEN11QXmppLogger11MessageTypeERK7QString(char 
 #define VP_CFG 0
 #endif
 uint32_t vp_cfg(void) { return VP_CFG; }
+/* QDateTime (libQt5Core): only default-constructed / copied / destroyed members of QXmppStanza::Error and friends; value irrelevant here */
+void _ZN9QDateTimeC1Ev(char *self) { *(char**)self = 0; }
+void _ZN9QDateTimeC1ERKS_(char *self, char *o) { *(char**)self = *(char**)o; }
+void _ZN9QDateTimeC1EOS_(char *self, char *o) { *(char**)self = *(char**)o; }
+void _ZN9QDateTimeD1Ev(char *self) { }
+char* _ZN9QDateTimeaSERKS_(char *self, char *o) { *(char**)self = *(char**)o; return self; }
+/* log-message formatting: identity on the format string */
+void _ZN9QtPrivate12argToQStringE11QStringViewmPPKNS_7ArgBaseE(char *ret, uint64_t n, char *p, uint64_t nargs, char *args) { *(QAD**)ret = SHARED_NULL; }
+void _ZNK7QString3argERKS_i5QChar(char *ret, char *self, char *a, uint32_t w, uint16_t fill) { *(QAD**)ret = qad_ref(*(QAD**)self); }
+/* index -> one of four concrete addresses (see vp_iqmap_impl.h) */
+char* vp_pick4(uint32_t i, char *a, char *b, char *c, char *d) { return i == 0 ? a : i == 1 ? b : i == 2 ? c : d; }
+/* QString::startsWith / endsWith (const QString&, cs): via the view models of qt_core.c */
+uint8_t _ZNK7QString10startsWithERKS_N2Qt15CaseSensitivityE(char *self, char *o, uint32_t cs) { QAD *a = *(QAD**)self, *b = *(QAD**)o;
+  return _ZN9QtPrivate10startsWithE11QStringViewS0_N2Qt15CaseSensitivityE(a->f1, (char*)qs_chars(a), b->f1, (char*)qs_chars(b), cs); }
+uint8_t _ZNK7QString8endsWithERKS_N2Qt15CaseSensitivityE(char *self, char *o, uint32_t cs) { QAD *a = *(QAD**)self, *b = *(QAD**)o;
+  return _ZN9QtPrivate8endsWithE11QStringViewS0_N2Qt15CaseSensitivityE(a->f1, (char*)qs_chars(a), b->f1, (char*)qs_chars(b), cs); }
+/* QXmppUtils::generateStanzaUuid (real: QUuid::createUuid, random): hands out the arbitrary strings prepared by the harness */
+#ifdef HAVE_G_vp_uuid
+void _ZN10QXmppUtils18generateStanzaUuidEv(char *ret) { ASSERT(G_vp_uuid_n < 2, "C07: more than two generated ids"); ASSUME(G_vp_uuid_n < 2);
+  char *src = G_vp_uuid_n == 0 ? ((char**)&G_vp_uuid)[0] : ((char**)&G_vp_uuid)[1]; G_vp_uuid_n++; *(QAD**)ret = qad_ref(*(QAD**)src); }
+#else
+void _ZN10QXmppUtils18generateStanzaUuidEv(char *ret) { ASSERT(0, "C07: generateStanzaUuid not expected here"); *(QAD**)ret = SHARED_NULL; }
+#endif
+/* ~QXmppOutgoingClient: destruction of the private object (socket, managers, ...) and of the QObject base is outside C07 */
+void _ZNKSt14default_deleteI26QXmppOutgoingClientPrivateEclEPS0_(char *self, char *p) { }
+void _ZN13QXmppLoggableD2Ev(char *self) { }
